@@ -30,6 +30,8 @@ CASE_TIMEOUT = 30
 FNAME = "prog.s"
 MAX_FILE = 100_000
 ROM_CODE = {"low": "LowRom", "low2": "LowRom2", "high": "HighRom"}
+# what the output path holds before a front end is run: writing a file replaces it, whatever it was
+STALE_OUTPUT = b"PATCH" + bytes(range(256)) * 12 + b"EOF" + b"stale tail EOF"
 
 
 # ----------------------------------------------------------------------------- observation
@@ -135,6 +137,7 @@ def observe_file_api(case) -> dict:
         lg.propagate = False
     files = _files_on_disk(case)
     files[case.get("fname", FNAME)] = case["src"]
+    files.setdefault("out.bin", STALE_OUTPUT)      # the output path already holds a longer file from an earlier build
     out: dict
     try:
         with asmdriver.sandbox(files):
@@ -221,6 +224,7 @@ def observe_cli(case) -> dict:
     """python -m a816.cli in a subprocess: exit status, 'Success !' in the log, output file."""
     files = _files_on_disk(case)
     files[case.get("fname", FNAME)] = case["src"]
+    files.setdefault("out.bin", STALE_OUTPUT)
     with asmdriver.sandbox(files) as d:
         cmd = [sys.executable, "-m", "a816.cli", "-o", "out.bin", "-f", case.get("format", "ips")]
         if case.get("mapping"):
